@@ -118,7 +118,10 @@ func (x *Exec) runTop() {
 		for k, lf := range leaves(p.Type()) {
 			x.inputs = append(x.inputs, inputVar{Name: name + lf.Path, Term: v.T[k]})
 		}
-		for _, fact := range x.wfFacts(p.Type(), v.T, next0) {
+		x.strictSlices = true
+		pfacts := x.wfFacts(p.Type(), v.T, next0)
+		x.strictSlices = false
+		for _, fact := range pfacts {
 			x.S.Assert(fact)
 		}
 		if i == 0 && fn.Signature.Recv() != nil {
